@@ -585,6 +585,7 @@ func (c *Ctx) c08KnownProbes() {
 		{"c08-bool-ordering", "TRUE>\"z\"", "TRUE"},
 		{"c08-neg-text", "-\"abc\"", "#VALUE!"},
 		{"c08-negative-zero-text", "(0*-1)&\"\"", "0"},
+		{"c08-concat-large-number-exponent", "5&1000000", "51000000"},
 	} {
 		f.SetCellFormula("Sheet1", "Z1", tc.formula)
 		res, err := f.CalcCellValue("Sheet1", "Z1")
